@@ -45,6 +45,7 @@ func init() {
 		sc.Node.DBs.flushAll(w, sc)
 		return rv(resp.OK())
 	}})
+	reg("VARGS", &cmdSpec{arity: -2, fn: func(w *World, sc *SrvConn, e *Exec, a []string) result { return rv(resp.Int(int64(len(a)))) }})
 	reg("VTAG", &cmdSpec{arity: -3, readonly: true, fn: cmdVTag})
 	reg("VKTAG", &cmdSpec{arity: -4, first: 1, last: 1, readonly: true, fn: cmdVKTag})
 	reg("VWTAG", &cmdSpec{arity: -3, first: 1, last: 1, write: true, fn: cmdVWTag})
@@ -354,6 +355,11 @@ func splitAddr(a string) (string, int64) {
 
 func cmdVTag(w *World, sc *SrvConn, e *Exec, a []string) result {
 	uid, shape := a[1], a[2]
+	if len(a) > 3 {
+		if n, ok := atoi(a[3]); ok && n > 0 {
+			uid = PadUID(uid, int(n))
+		}
+	}
 	p := 0
 	leaf := 0
 	v, ok := buildShape(uid, shape, &p, &leaf, 0)
@@ -382,6 +388,30 @@ func cmdVWTag(w *World, sc *SrvConn, e *Exec, a []string) result {
 	en.list = append(en.list, a[2])
 	d.touch(w, sc, a[1])
 	return rv(resp.Bulk("w:" + a[2]))
+}
+
+// PadUID lengthens a uid deterministically so that leaves become large payloads.
+func PadUID(uid string, n int) string {
+	b := make([]byte, 0, len(uid)+n+1)
+	b = append(b, uid...)
+	b = append(b, '~')
+	x := uint32(len(uid)*2654435761 + n)
+	for i := 0; i < n; i++ {
+		x = x*1664525 + 1013904223
+		b = append(b, byte(x>>24))
+	}
+	return string(b)
+}
+
+// lineSafe removes CR and LF, which line-terminated RESP types cannot carry.
+func lineSafe(s string) string {
+	b := []byte(s)
+	for i, c := range b {
+		if c == '\r' || c == '\n' {
+			b[i] = '.'
+		}
+	}
+	return string(b)
 }
 
 // BuildShape exposes the shape builder to harness oracles.
@@ -420,7 +450,7 @@ func buildShape(uid, shape string, p *int, leaf *int, depth int) (resp.Value, bo
 	}
 	switch c {
 	case 's':
-		return resp.Simple(tag()), true
+		return resp.Simple(lineSafe(tag())), true
 	case 'b':
 		return resp.Bulk(tag() + "\r\n\x00bin"), true
 	case 'i':
@@ -444,9 +474,9 @@ func buildShape(uid, shape string, p *int, leaf *int, depth int) (resp.Value, bo
 	case 'v':
 		return resp.Verbatim("txt:" + tag()), true
 	case 'e':
-		return resp.Err("ERR " + tag()), true
+		return resp.Err("ERR " + lineSafe(tag())), true
 	case 'B':
-		return resp.BlobErr("ERR blob " + tag()), true
+		return resp.BlobErr("ERR blob " + lineSafe(tag())), true
 	case 'S':
 		v := resp.Bulk(tag() + "-streamed-string-payload")
 		v.Stream = true
